@@ -355,7 +355,9 @@ def main(tier):
     byname = {h.name: h for h in hs}
     nval = validate_translator(hs, L.new_interp, nat)
     log("[C03] translator validation: %d concrete runs agree with the natively compiled code (%.0fs)" % (nval, time.time() - t0))
-    deadline = time.time() + (1200 if tier == "quick" else 3000)      # for the exploration alone (builds depend on the machine's load)
+    # for the exploration alone (builds depend on the machine's load); sized for 16 workers, stretched for fewer
+    jobs = max(1, int(os.environ.get("VERIF_JOBS", "16")))
+    deadline = time.time() + (1200 if tier == "quick" else 3000) * max(1, 16 // jobs)
     SECOND_OPINION_PER_HARNESS[0] = 3 if tier == "quick" else 12
     res = {}
     # harnesses with equal fan-out depth are explored together (one worker pool per group)
